@@ -65,6 +65,7 @@ def candidates(spec: dict):
             s = copy.deepcopy(spec)
             h = _frames(s)[fi]
             del h["df"]["rows"][lo:hi]
+            _renumber(h["df"])
             _trim_matrix_attrs(h.get("body", {}), lo, hi, n)
             yield s
         # columns not used for grouping
@@ -74,7 +75,7 @@ def candidates(spec: dict):
             if v:
                 used.update([v] if isinstance(v, str) else v)
         for j, c in enumerate(df["cols"]):
-            if c in used or len(df["cols"]) <= 1:
+            if c in used or c == "id" or len(df["cols"]) <= 1:
                 continue
             s = copy.deepcopy(spec)
             h = _frames(s)[fi]
@@ -104,6 +105,17 @@ def candidates(spec: dict):
                     if keep != v:
                         _frames(s)[fi]["df"]["rows"][i][j] = keep
                         yield s
+
+
+def _renumber(df: dict) -> None:
+    """Keep the sentinel convention: the id cell of data row i starts with #i#."""
+    if "id" not in df["cols"]:
+        return
+    j = df["cols"].index("id")
+    for i, row in enumerate(df["rows"]):
+        v = row[j]
+        if isinstance(v, str) and v.startswith("#") and "#" in v[1:]:
+            row[j] = f"#{i}#" + v[v.index("#", 1) + 1:]
 
 
 def _trim_matrix_attrs(body: dict, lo: int, hi: int, n: int) -> None:
